@@ -112,6 +112,16 @@ def locText (src : Loc → Str) (shortMsg : Str) (tl : Str) (l : Loc) : Str :=
   let t := far t "{info}".toList (if l.info = [] then shortMsg else l.info)
   far t "{code}".toList (readCode (src l) l.column (endlOf t))
 
+/-- the file the `{code}` expansion READS: `readCode(loc.getOrigFile(), loc.line, …)` — the path cppcheck opened
+    (`mOrigFileName`), never the display name (`mFileName`, which `-rp` / `setfile` rewrite).  `files path line` = the
+    (trimmed) text of that line of the file at `path`, empty when it cannot be read.  The translator T6 checks that
+    every `readCode` call in `toString` passes `getOrigFile()`. -/
+def srcOf (files : Str → Int → Str) : Loc → Str := fun l => files l.origFile l.line
+
+/-- the display names of a finding rewritten (what `-rp=<base>` / `FileLocation::setfile` do) -/
+def rewriteDisplay (g : Str → Str) (f : Finding) : Finding :=
+  { f with stack := f.stack.map (fun l => { l with file := g l.file }) }
+
 /-- the first part of `toString`: the message template (`none`: `toString` does not return) -/
 def mainText (brk : Bool) (src : Loc → Str) (f : Finding) (verbose : Bool) (tf : Str) : Option Str :=
   let idStr := if f.guideline = [] then f.id else f.guideline
